@@ -5,7 +5,7 @@ from ..core import RuleResult, arm_name, is_len_path
 from ..poly import Poly
 from ..interp import implies, cmp_fact, as_poly, Tree
 from .util import *
-from .bounds import handle_ctors, range_handle_invariants
+from .bounds import handle_ctors, range_handle_invariants, is_cursor_key
 
 ONE = Poly.const(1)
 
@@ -314,9 +314,9 @@ def r_formula(ctx):
                 else:
                     # the cursor pair is (start, end) in that order
                     ks = roles["index"] + roles["end"]
-                    it_index = [k for k in roles["index"] if len(k) == 2]
-                    it_end = [k for k in roles["end"] if len(k) == 2]
-                    if not it_index or not it_end or it_index[0][0] != it_end[0][0]:
+                    it_index = [k for k in roles["index"] if is_cursor_key(ctx, adt, k)]
+                    it_end = [k for k in roles["end"] if is_cursor_key(ctx, adt, k)]
+                    if not it_index or not it_end or it_index[0][:-1] != it_end[0][:-1]:
                         row.fail("the inner iterator is not created over (start, end)")
             row.done()
 
@@ -429,7 +429,7 @@ def r_formula(ctx):
 
             def F(k):
                 return Poly.atom(("init", (("P", 1), k), 0))
-            start_k = [k for k in roles.get("index", []) if len(k) == 1]
+            start_k = [k for k in roles.get("index", []) if not is_cursor_key(ctx, adt, k)]
             ol_k = roles.get("original_len")
             if not start_k or ol_k is None:
                 row.fail("handle fields (start, original length) not identified")
@@ -439,8 +439,8 @@ def r_formula(ctx):
             sh = shifts(I)
             st, fl = _final_len(I)
             ds = [e for e in I.all_effects(("DESTROY",))]
-            it_index = [k for k in roles.get("index", []) if len(k) == 2]
-            it_end = [k for k in roles.get("end", []) if len(k) == 2]
+            it_index = [k for k in roles.get("index", []) if is_cursor_key(ctx, adt, k)]
+            it_end = [k for k in roles.get("end", []) if is_cursor_key(ctx, adt, k)]
             # destroy exactly [iter.index, iter.end)
             for d in ds:
                 s = slot_of(d["ptr"])
@@ -828,6 +828,23 @@ def _capacity_rows(res, ctx, arms):
 
 
 def _clone_row(res, ctx, arms):
+    # the public Clone impl: every element goes through the clone function - on every path, and nothing is copied bitwise into the new storage
+    pp = "<any_vec::AnyVec as core::clone::Clone>::clone"
+    for tt, I in arms(pp):
+        row = Row(res, ctx, "clone:public", pp, tt, I)
+        L0 = as_poly(entry_len(I, I.g.entry, (("P", 1), ("raw", "len"))))
+        cl = I.all_effects(("CLONE",))
+        if len(cl) != 1:
+            row.fail("expected exactly one call of the clone function, found %d" % len(cl), sub="clone")
+        else:
+            row.all_paths(cl[0], "cloning the elements through the clone function (a drop-less element type can still have a hand-written Clone)", zero=L0,
+                          sub="clone-all-paths")
+        for c in I.all_effects(("COPY",)):
+            d = ptr_parts(c["dst"])
+            if d and base_mem(d[0]) is not None and base_mem(d[0])[0][0] == "L":
+                row.fail("elements are copied bitwise (%s) into the clone's storage: Clone::clone is not called for them" % c["prim"], c, "bitwise")
+                break
+        row.done()
     p = "any_vec_raw::AnyVecRaw::clone"
     for tt, I in arms(p):
         row = Row(res, ctx, "clone", p, tt, I)
@@ -851,6 +868,7 @@ def _clone_row(res, ctx, arms):
             row.expect_eq("cloned count", c["n"], L0, c, "count")
             if c["fn"] != ("param", 2):
                 row.fail("clone function is not the one passed by the caller", c, "fn")
+            row.all_paths(c, "cloning the elements (the clone's length then covers slots that hold no value)", zero=L0, sub="clone-all-paths")
         # room for LEN(source) elements is made before cloning: expand(needed - CAP) only under CAP < needed, needed = LEN(source)
         rs = I.all_effects(("RESERVE",))
         if len(rs) != 1:
